@@ -127,7 +127,13 @@ def run_block(c, tag, exp, cases, results, tol, shard=200, sizes_term=None):
             f"Definition hidden_sizes : sizes := {sizes_term}.\n"
             "Lemma table_consistent : consistentb hidden_sizes tbl = true.\nProof. vm_compute. reflexivity. Qed.\n"
             "Lemma sizes_positive : forallb (fun ks => Qle_bool (1 # 1000000) (snd ks)) hidden_sizes = true.\nProof. vm_compute. reflexivity. Qed.\n")
+    # hypotheses of C07_only_cnf on this table: every stored ratio is non-zero, every exported ordered factor has a non-zero exponent
+    files[f"Gen_{tag}_wf"] = (CHEADER + "From Measured Require Import Proofs.FDictFacts Proofs.PlannerErrors.\n" + td +
+        "Lemma table_ratios_nonzero : table_nzb tbl = true.\nProof. vm_compute. reflexivity. Qed.\n"
+        "Lemma ordered_exponents_nonzero : ord_nzb ord = true.\nProof. vm_compute. reflexivity. Qed.\n")
     out = c.run_coq(files)
+    okw, logw = out[f"Gen_{tag}_wf"]
+    c.oblige(f"Gen_{tag}_wf (hypotheses of C07_only_cnf on the exported table: non-zero ratios, non-zero factor exponents)", okw, logw[-600:])
     info = {i: {"model_ok": True, "diag": None} for i in keep}
     all_ok = True
     for si, idxs in enumerate(shards):
